@@ -228,78 +228,106 @@ func (in *Interp) fmtErrType() types.Type {
 	return fmtErrT
 }
 
-// sprintf: opaque text tagged with the format; exact for a few shapes.
+// sprintf: exact for the verbs %s %d %v (optional 0 flag and width) applied to
+// strings, integers and *big.Int; any other format yields an opaque text tagged
+// with the format.
 func (in *Interp) sprintf(args []Value) Value {
 	f := "<sprint>"
-	if s, ok := args[0].(*StrV); ok {
-		f = strConst(s)
-		va := args[1].(*SliceG)
-		// exact model: only %s/%d of concrete-length strings / decimal-tagged ints
-		parts := []*StrV{}
-		exact := true
-		ai := 0
-		lit := ""
-		for i := 0; i < len(f) && exact; i++ {
-			if f[i] != '%' {
-				lit += string(f[i])
-				continue
-			}
-			if i+1 >= len(f) {
-				exact = false
-				break
-			}
-			i++
-			switch f[i] {
-			case '%':
-				lit += "%"
-			case 's', 'v', 'd':
-				if ai >= va.len {
-					exact = false
-					break
-				}
-				a := (*va.cells)[va.off+ai].v
-				ai++
-				iv, _ := a.(*IfaceV)
-				if iv == nil {
-					exact = false
-					break
-				}
-				switch x := iv.val.(type) {
-				case *StrV:
-					if lit != "" {
-						parts = append(parts, litStr(lit))
-						lit = ""
-					}
-					parts = append(parts, x)
-				case *Term:
-					if b, ok := iv.typ.Underlying().(*types.Basic); ok && b.Info()&types.IsInteger != 0 && f[i] != 's' {
-						if lit != "" {
-							parts = append(parts, litStr(lit))
-							lit = ""
-						}
-						parts = append(parts, in.itoa(BV2Int(x, isSigned(iv.typ))))
-					} else {
-						exact = false
-					}
-				default:
-					exact = false
-				}
-			default:
-				exact = false
-			}
-		}
-		if exact {
-			if lit != "" {
-				parts = append(parts, litStr(lit))
-			}
-			r := litStr("")
-			for _, p := range parts {
-				r = in.strConcat(r, p)
-			}
-			return r
+	s, ok := args[0].(*StrV)
+	if !ok {
+		return litStr("<" + f + ">")
+	}
+	if _, isConst := constInt(s.len); !isConst {
+		return litStr("<dynamic format>")
+	}
+	f = strConst(s)
+	va := args[1].(*SliceG)
+	var parts []*StrV
+	lit := ""
+	flush := func() {
+		if lit != "" {
+			parts = append(parts, litStr(lit))
+			lit = ""
 		}
 	}
-	return litStr("<" + f + ">")
+	ai := 0
+	for i := 0; i < len(f); i++ {
+		if f[i] != '%' {
+			lit += string(f[i])
+			continue
+		}
+		i++
+		if i >= len(f) {
+			return litStr("<" + f + ">")
+		}
+		if f[i] == '%' {
+			lit += "%"
+			continue
+		}
+		zero := false
+		width := 0
+		for i < len(f) && f[i] == '0' {
+			zero = true
+			i++
+		}
+		for i < len(f) && f[i] >= '0' && f[i] <= '9' {
+			width = width*10 + int(f[i]-'0')
+			i++
+		}
+		if i >= len(f) || ai >= va.len {
+			return litStr("<" + f + ">")
+		}
+		verb := f[i]
+		iv, _ := (*va.cells)[va.off+ai].v.(*IfaceV)
+		ai++
+		if iv == nil || (verb != 's' && verb != 'd' && verb != 'v') {
+			return litStr("<" + f + ">")
+		}
+		var piece *StrV
+		switch x := iv.val.(type) {
+		case *StrV:
+			piece = x
+		case *Term:
+			b, isB := iv.typ.Underlying().(*types.Basic)
+			if !isB || b.Info()&types.IsInteger == 0 || verb == 's' {
+				return litStr("<" + f + ">")
+			}
+			piece = in.itoa(BV2Int(x, isSigned(iv.typ)))
+		case *PtrV:
+			if x.cell == nil {
+				return litStr("<" + f + ">")
+			}
+			bo, isBig := x.cell.v.(*BigObj)
+			if !isBig {
+				return litStr("<" + f + ">")
+			}
+			piece = in.bigStringObj(bo)
+		default:
+			return litStr("<" + f + ">")
+		}
+		if width > 0 {
+			n := in.strLenConst(piece, "Sprintf width")
+			if n < width {
+				pad := " "
+				if zero {
+					pad = "0"
+				}
+				p := ""
+				for k := n; k < width; k++ {
+					p += pad
+				}
+				piece = in.strConcat(litStr(p), piece)
+			}
+		}
+		flush()
+		parts = append(parts, piece)
+	}
+	flush()
+	r := litStr("")
+	for _, p := range parts {
+		r = in.strConcat(r, p)
+	}
+	return r
 }
 
 func (in *Interp) strConcat(sa, sb *StrV) *StrV {
